@@ -252,10 +252,17 @@ Proof.
   - split; [reflexivity|]. left. reflexivity.
 Qed.
 
-Lemma T_readers_only_need_the_lock s t sel :
-  pcs s t = Acq (CReaderOpen sel) -> (enabled s t = true <-> lock s = None).
+(* a reader at `with self._version_lock` can proceed unless another thread is inside a critical section at
+   this very moment, and that thread frees the lock within two of its own (always enabled) steps;
+   whether a write transaction is open, or how many writers wait, plays no role *)
+Lemma T_reader_never_blocked_by_txn s t sel :
+  Reachable s -> pcs s t = Acq (CReaderOpen sel) ->
+  enabled s t = true \/
+  exists t', lock s = Some t' /\ holds_lock (pcs s t') = true /\ enabled s t' = true /\
+             (lock (step s t') = None \/ lock (step (step s t') t') = None).
 Proof.
-  intros Hpc. unfold enabled. rewrite Hpc. destruct (lock s); split; intros; congruence.
+  intros R Hpc. unfold enabled at 1. rewrite Hpc. destruct (lock s) as [t'|] eqn:Hl; [right|left; reflexivity].
+  exists t'. split; [reflexivity|]. apply T_lock_only_in_critical_sections; assumption.
 Qed.
 
 Lemma T_reader_sees_committed s t i c :
